@@ -42,6 +42,10 @@ func startLive(project *types.Project, auto map[string]int) *liveRunner {
 		if t, ok := lr.auto[info.Conf.Name]; ok && t > 0 {
 			b = fakecmd.Behaviour{ExitMode: "auto", AfterTicks: t, Code: lr.autoCode[info.Conf.Name]}
 		}
+		// a few lines of output, so that the log routes have something to show
+		for k := 0; k < 12; k++ {
+			b.Out = append(b.Out, fakecmd.OutItem{AtTick: k / 6, Stream: "stdout", Text: fmt.Sprintf("%s line %d", info.Proc, k)})
+		}
 		argv := append([]string{info.Executable}, info.Args...)
 		c := fakecmd.New(info.Proc, info.Inst, info.Attempt, argv, b)
 		lr.mu.Lock()
